@@ -1,4 +1,5 @@
 import Tx3Model.PlutusData
+import Tx3Proofs.Lemmas.Cbor
 
 /-!
 # C09 — datums and redeemers are encoded as standard Plutus Data
@@ -14,23 +15,6 @@ namespace Tx3
 namespace PData
 
 open Cbor
-
-/-! ## big-endian bytes ⇄ naturals -/
-
-theorem beNat_append_single (bs : Bytes) (b : UInt8) : beNat (bs ++ [b]) = beNat bs * 256 + b.toNat := by
-  unfold beNat; rw [List.foldl_append]; rfl
-
-theorem beNat_natToBytes (n : Nat) : beNat (natToBytes n) = n := by
-  induction n using Nat.strongRecOn with
-  | ind n ih =>
-    rw [natToBytes]
-    split
-    · rename_i h; subst h; rfl
-    · rename_i h
-      rw [beNat_append_single, ih (n / 256) (by omega)]
-      have : (UInt8.ofNat (n % 256)).toNat = n % 256 := by
-        simp [UInt8.toNat_ofNat']
-      rw [this]; omega
 
 /-! ## chunks -/
 
